@@ -7,7 +7,7 @@ from .tokens import RiscvToken, RiscvcToken
 from .rvc_relocations import BcImm11Relocation, BcImm8Relocation
 from .rvc_relocations import CBImm11Relocation, CBlImm11Relocation
 from ..generic_instructions import ArtificialInstruction
-from .instructions import Andr, Orr, Xorr, Subr, Addi, Slli, Srli
+from .instructions import Andr, Orr, Xorr, Subr, Addi, Slli, Srli, Srai
 from .instructions import Lw, Sw, Blt, Bgt, Bge, Beq, Bne, Ble, Blr
 from .instructions import Bgtu, Bltu, Bgeu, Bleu
 
@@ -713,12 +713,12 @@ def pattern_shli32_1_(context, tree, c0):
     "reg",
     "SHRI32(reg, CONSTI32)",
     size=1,
-    condition=lambda t: t.children[1].value < 16,
+    condition=lambda t: t.children[1].value in range(0, 16),
 )
 def pattern_shri32(context, tree, c0):
     d = context.new_reg(RiscvRegister)
     c1 = tree.children[1].value
-    context.emit(Srliv(d, c0, c1))
+    context.emit(Srai(d, c0, c1))
     return d
 
 
